@@ -61,6 +61,8 @@ func runC19(c *eng.Ctx) {
 	stagePoolsAreDistinct(c)
 	rejectedTaskIsReported(c)
 	everyReceiverIsAnswered(c)
+	groupingWaitOnlyWhenACollectorRuns(c)
+	dispatcherGoroutinesOwnTheirTask(c)
 	c.Rule("ERRFLOW", "query/stage{per-shard plan nodes ignore not-found}", func() { shardNodesIgnoreNotFound(c) })
 
 	// ---- 1. children registered before the parent completes -----------------------------------
